@@ -584,9 +584,9 @@ class C08(Prop):
 class C11(Prop):
     id = "C11"
     module = "C11"
-    theorems = ["C11_rows_ok", "C11_nearest_f32", "C11_monotone_f32", "C11_nearest_f64", "C11_monotone_f64"]
-    partial_note = ("the df! rows are proved (nearest of the two neighbours within half a step plus an explicit per-row slack of at most a quarter step, monotone, never outside the range); "
-                    "the three hand-written bias quantisers of 1059/1065/1230 are proved lossless on their grid (C08) but their nearest-value behaviour on off-grid inputs is covered by the sweep only")
+    theorems = ["C11_rows_ok", "C11_nearest_f32", "C11_monotone_f32", "C11_nearest_f64", "C11_monotone_f64",
+                "C11_bias_rows_ok", "C11_bias_nearest_0_01", "C11_bias_nearest_0_02", "C11_bias_monotone_0_01", "C11_bias_monotone_0_02"]
+    partial_note = None
     rule = ("per scaled (float-typed) df! row: adjacent patterns n, n+1 over the whole range (range ends, around zero, random), their decoded values by FDEC, then FENC of reals between them: "
             "the floats either side of the half step, the end points, random interior points; non-trivial = distinct (row, real) pairs strictly between two grid points")
 
